@@ -581,7 +581,15 @@ func VerifyEvidence(doc *document.Document, evidence *document.ChipAuthEvidence)
 	// SmSsc default to 1, which is correct when SelectEF was the first SM command (SSC=2).
 	sscInit := big.NewInt(1)
 	if len(evidence.SmSsc) > 0 {
+		// the captured counter is the value after the protected response was decoded: it has the width of the
+		// session counter and is at least 1 (a zero counter has no predecessor)
+		if len(evidence.SmSsc) != len(sm.SSC()) {
+			return nil, fmt.Errorf("[VerifyEvidence] SmSsc has invalid length (exp:%d, act:%d)", len(sm.SSC()), len(evidence.SmSsc))
+		}
 		sscInit.Sub(new(big.Int).SetBytes(evidence.SmSsc), big.NewInt(1))
+		if sscInit.Sign() < 0 {
+			return nil, fmt.Errorf("[VerifyEvidence] SmSsc is zero")
+		}
 	}
 	ssc := make([]byte, len(sm.SSC()))
 	sscInit.FillBytes(ssc)
